@@ -24,10 +24,6 @@ def readBootSector : Prog (List Nat) := do
     ((if isFat32 then bootExt32Chunks else []) ++ bootTailChunks ++ [if isFat32 then 420 else 448, 2]) []
   pure (hd ++ rest)
 
-def liftE {α : Type} : Except Err α → Prog α
-  | .ok a => pure a
-  | .error e => .fail e
-
 /-- `FsInfoSector::deserialize(&mut disk)`: the signatures are checked between the reads -/
 def readFsInfoSector : Prog FsInfoSt := do
   let (lead, _) ← readU32 devStrm ()
